@@ -455,7 +455,18 @@ pub fn raw_file(cfg: &ConfigSpec, p: &RawParams) -> BoxedStrategy<RawFile>
                 let bangs = unit.windows(2).filter(|w| w == b"!(").count().max(1);
                 let by_size = (max_bytes / unit.len().max(1)).max(1);
                 let by_stmts = (1500 / bangs).max(1);
-                f.repeat = repeat.min(by_size.min(by_stmts).min(u16::MAX as usize) as u16).max(1);
+                // unclosed block-comment openers (e.g. "/static/*" strings) cost openers x bytes in the
+                // unchanged parser (each one scans to the end of the file): keep openers x bytes <= 1e8
+                let openers = unit.windows(2).filter(|w| w == b"/*").count();
+                let by_openers = if openers == 0
+                {
+                    usize::MAX
+                }
+                else
+                {
+                    ((1.0e8 / (openers as f64 * unit.len().max(1) as f64)).sqrt() as usize).max(1)
+                };
+                f.repeat = repeat.min(by_size.min(by_stmts).min(by_openers).min(u16::MAX as usize) as u16).max(1);
                 f
             }),
         pm.max(1) => (prop_oneof![4 => corpus_window, 3 => model, 2 => text], mutations)
